@@ -737,6 +737,27 @@ pub mod hx_npn4 {
         kani::assume(out < 4 + n);
         AigPattern { ands, output: PatEdge(out, out_neg) }
     }
+    /// symbolic well-formed pattern with a SYMBOLIC number n <= 3 (= MAX_ANDS) of gates: three gates are pushed, then the Vec is truncated to n
+    /// (no allocation depends on n)
+    pub fn any_pattern_upto3() -> AigPattern {
+        let n: u8 = kani::any();
+        kani::assume(n <= 3);
+        let nodes: [u8; 6] = kani::any();
+        let negs: [bool; 6] = kani::any();
+        let out: u8 = kani::any();
+        let out_neg: bool = kani::any();
+        let mut ands = Vec::with_capacity(3);
+        let mut k = 0u8;
+        while k < 3 {
+            let (a, b) = (nodes[2 * k as usize], nodes[2 * k as usize + 1]);
+            kani::assume(k >= n || (a < 4 + k && b < 4 + k));
+            ands.push((PatEdge(a & 7, negs[2 * k as usize]), PatEdge(b & 7, negs[2 * k as usize + 1])));
+            k += 1;
+        }
+        ands.truncate(n as usize);
+        kani::assume(out < 4 + n);
+        AigPattern { ands, output: PatEdge(out, out_neg) }
+    }
 }
 
 //@@ section rewrite
@@ -831,6 +852,7 @@ pub mod hx_rewrite {
         instantiate(3, true);
     }
 
+    /// strictly ascending leaf list of symbolic length <= 4 (four pushes, then truncate: no allocation depends on the length)
     fn any_cut(max_node: u32) -> Cut {
         let n: u8 = kani::any();
         let l: [u32; 4] = kani::any();
@@ -838,11 +860,12 @@ pub mod hx_rewrite {
         kani::assume(n <= 4 && cs < (1 << 20));
         let mut leaves = Vec::with_capacity(4);
         let mut i = 0usize;
-        while i < n as usize {
-            kani::assume(l[i] <= max_node && (i == 0 || l[i - 1] < l[i]));
+        while i < 4 {
+            kani::assume(i >= n as usize || (l[i] <= max_node && (i == 0 || l[i - 1] < l[i])));
             leaves.push(l[i]);
             i += 1;
         }
+        leaves.truncate(n as usize);
         Cut { leaves, cone_size: cs }
     }
     fn has(c: &Cut, x: u32) -> bool {
@@ -890,28 +913,41 @@ pub mod hx_rewrite {
         assert!(merge_cuts(&a, &b).is_some());
     }
 
-    /// reference evaluation of the cone for one minterm: leaf i carries bit i of m, Const and non-leaf inputs 0
+    fn leaf_pos(cut: &Cut, x: usize) -> Option<usize> {
+        let mut r = None;
+        let mut k = 0;
+        while k < cut.leaves.len() {
+            if cut.leaves[k] as usize == x {
+                r = Some(k);
+            }
+            k += 1;
+        }
+        r
+    }
+    /// reference evaluation of the cone for one minterm: leaf i carries bit i of m, Const and non-leaf inputs 0 (written without long loops: the unwinding
+    /// bound of these harnesses also bounds eval_tt's recursion depth, and CBMC unrolls the binary recursion 2^bound times)
     fn cone_value(aig: &AigModule, cut: &Cut, root: u32, m: u8) -> bool {
         let mut v = [false; MAXN];
-        let mut i = 0;
-        while i < aig.nodes.len() {
-            let mut leaf = None;
-            let mut k = 0;
-            while k < cut.leaves.len() {
-                if cut.leaves[k] as usize == i {
-                    leaf = Some(k);
-                }
-                k += 1;
+        let n = aig.nodes.len();
+        let mut step = |i: usize| {
+            if i < n {
+                v[i] = match leaf_pos(cut, i) {
+                    Some(k) => (m >> k) & 1 == 1,
+                    None => match aig.nodes[i] {
+                        AigNode::And { fanin0, fanin1 } => edge_val(&v, fanin0) & edge_val(&v, fanin1),
+                        _ => false,
+                    },
+                };
             }
-            v[i] = match leaf {
-                Some(k) => (m >> k) & 1 == 1,
-                None => match aig.nodes[i] {
-                    AigNode::And { fanin0, fanin1 } => edge_val(&v, fanin0) & edge_val(&v, fanin1),
-                    _ => false,
-                },
-            };
-            i += 1;
-        }
+        };
+        step(0);
+        step(1);
+        step(2);
+        step(3);
+        step(4);
+        step(5);
+        step(6);
+        step(7);
         v[root as usize]
     }
     /// the cut covers the cone: walking down from root, every path stops at a leaf or at the constant (no stray primary input)
@@ -919,10 +955,9 @@ pub mod hx_rewrite {
         let mut need = [false; MAXN];
         need[root as usize] = true;
         let mut ok = true;
-        let mut i = aig.nodes.len();
-        while i > 0 {
-            i -= 1;
-            if need[i] && !has(cut, i as u32) {
+        let n = aig.nodes.len();
+        let mut step = |i: usize| {
+            if i < n && need[i] && leaf_pos(cut, i).is_none() {
                 match aig.nodes[i] {
                     AigNode::And { fanin0, fanin1 } => {
                         need[fanin0.node() as usize] = true;
@@ -932,7 +967,15 @@ pub mod hx_rewrite {
                     AigNode::Const => {}
                 }
             }
-        }
+        };
+        step(7);
+        step(6);
+        step(5);
+        step(4);
+        step(3);
+        step(2);
+        step(1);
+        step(0);
         ok
     }
     fn cut_tt(n_ands: u8, canary: bool) {
@@ -960,15 +1003,15 @@ pub mod hx_rewrite {
         }
     }
     /// bounded: truth table of a root over <= 4 cut leaves equals graph evaluation on all 16 leaf assignments
-    #[vp_bounded(12)]
+    #[vp_bounded(7)]
     pub fn compute_cut_tt_is_cone_function_2_ands() {
         cut_tt(2, false);
     }
-    #[vp_bounded(12)]
+    #[vp_bounded(7)]
     pub fn compute_cut_tt_is_cone_function_3_ands() {
         cut_tt(3, false);
     }
-    #[vp_bounded(12)]
+    #[vp_bounded(7)]
     pub fn canary_compute_cut_tt_reaches_xor() {
         cut_tt(3, true);
     }
@@ -981,39 +1024,55 @@ fn compute_cut_tt(_aig: &AigModule, _root: u32, _cut: &Cut) -> Option<Tt4> {
 }
 pub mod hx_rewrite_lib {
     use super::*;
-    use crate::npn4::hx_npn4::{any_pattern, any_transform};
+    use crate::npn4::hx_npn4::{any_pattern_upto3, any_transform};
+    use crate::npn4::NpnTransform;
     use crate::oracle;
     use crate::rewrite::hx_rewrite::{any_dest, frame, frame_kept};
     use crate::sem::*;
-    use crate::spec::{value_at, wf_pattern};
+    use crate::spec::{assignment, npn_value_at, pattern_value_at, value_at, wf_pattern};
 
+    /// one cut of the root with everything try_library_rewrite learns about it
     struct CutCase {
-        cut: Cut,
+        leaves: [u32; 5],
+        nl: usize,
+        cone_size: u32,
         tt: Tt4,
+        t: NpnTransform,
+        canonical: Tt4,
+        pat: AigPattern,
     }
-    /// one cut of the root with everything try_library_rewrite learns about it: `nl` strictly ascending leaves over old nodes 0..=5 (nl is concrete in every
-    /// harness; 0..=5 are all covered), a symbolic cone size, the cut's table tt, and (canonical, t, pattern) constrained only by the contracts of unit npn
-    fn any_case(slot: usize, gates: u8, nl: usize) -> CutCase {
-        let l: [u32; 5] = kani::any();
-        let cs: u32 = kani::any();
-        let mut leaves = Vec::with_capacity(5);
+    /// nl in 0..=5 strictly ascending leaves over old nodes 0..=5, a symbolic cone size, ANY table tt for the cut, t ANY transform of the group with
+    /// canonical = t.apply(tt) (real apply: npn_canonical's contract), pattern ANY well-formed pattern with <= 3 gates and pat.tt() == canonical (library lemma of unit npn)
+    fn any_case(slot: usize) -> CutCase {
+        let nl: u8 = kani::any();
+        let leaves: [u32; 5] = kani::any();
+        let cone_size: u32 = kani::any();
+        kani::assume(nl <= 5);
         let mut i = 0usize;
-        while i < nl {
-            kani::assume(l[i] <= 5 && (i == 0 || l[i - 1] < l[i]));
-            leaves.push(l[i]);
+        while i < 5 {
+            kani::assume(leaves[i] <= 5 && (i == 0 || i >= nl as usize || leaves[i - 1] < leaves[i]));
             i += 1;
         }
         let tt: Tt4 = kani::any();
         let t = any_transform();
-        let canonical: Tt4 = kani::any();
-        kani::assume(t.apply(tt) == canonical);
-        let pat = any_pattern(gates);
+        let canonical = t.apply(tt);
+        let pat = any_pattern_upto3();
         kani::assume(pat.tt() == canonical);
         assert!(wf_pattern(&pat));
         let tt_known: bool = kani::any();
         let in_library: bool = kani::any();
-        oracle::set(slot, if tt_known { Some(tt) } else { None }, canonical, t, if in_library { Some(pat) } else { None });
-        CutCase { cut: Cut { leaves, cone_size: cs }, tt }
+        oracle::set(slot, if tt_known { Some(tt) } else { None }, canonical, t, if in_library { Some(&pat) } else { None });
+        CutCase { leaves, nl: nl as usize, cone_size, tt, t, canonical, pat }
+    }
+    fn cut_of(c: &CutCase) -> Cut {
+        let mut leaves = Vec::with_capacity(5);
+        let mut i = 0;
+        while i < 5 {
+            leaves.push(c.leaves[i]);
+            i += 1;
+        }
+        leaves.truncate(c.nl);
+        Cut { leaves, cone_size: c.cone_size }
     }
     fn any_new_edges(hi: u8) -> Vec<Option<AigEdge>> {
         let mut ne = Vec::with_capacity(6);
@@ -1024,87 +1083,99 @@ pub mod hx_rewrite_lib {
         }
         ne
     }
-    /// the function the cut table promises for the root, on the values the new AIG gives to the mapped leaves (padding = leaf 0, as the code pads)
-    fn promised(c: &CutCase, ne: &[Option<AigEdge>], v: &[bool; MAXN]) -> bool {
+    /// values the new AIG gives to the mapped cut leaves (padding = leaf 0, as the code pads)
+    fn leaf_values(c: &CutCase, ne: &[Option<AigEdge>], v: &[bool; MAXN]) -> [bool; 4] {
         let mut z = [false; 4];
         let mut i = 0;
         while i < 4 {
-            let k = if i < c.cut.leaves.len() { i } else { 0 };
-            z[i] = edge_val(v, ne[c.cut.leaves[k] as usize].unwrap());
+            let k = if i < c.nl { i } else { 0 };
+            z[i] = edge_val(v, ne[c.leaves[k] as usize].unwrap());
             i += 1;
         }
-        value_at(c.tt, z)
+        z
     }
-    fn one_cut(gates: u8, nl: usize, canary: bool) {
+    fn minterm(x: [bool; 4]) -> u8 {
+        (x[0] as u8) | ((x[1] as u8) << 1) | ((x[2] as u8) << 2) | ((x[3] as u8) << 3)
+    }
+    /// the function the cut table promises for the root on the mapped leaves, and - asserted first, then used - the chain that links it to the pattern:
+    ///   y_i := z[perm[i]] ^ neg_i                                    (what the code must feed to canonical variable i)
+    ///   (a) bit m_y of pat.tt()       == pat evaluated on y          (unit npn: pattern_tt_is_its_function; re-checked here on the real tt())
+    ///   (b) bit m_y of t.apply(tt)    == out_neg ^ tt(z'), z'[perm[i]] = y_i ^ neg_i   (unit npn: apply_is_the_documented_composition; re-checked on the real apply())
+    ///   (c) z' == z                                                  (perm is a permutation)
+    ///   => tt(z) == out_neg ^ pat(y)
+    fn promised(c: &CutCase, z: [bool; 4]) -> bool {
+        let (p, neg) = (c.t.perm, c.t.in_neg);
+        let y = [z[p[0] as usize] ^ (neg & 1 != 0), z[p[1] as usize] ^ (neg & 2 != 0), z[p[2] as usize] ^ (neg & 4 != 0), z[p[3] as usize] ^ (neg & 8 != 0)];
+        let my = minterm(y);
+        let pa = (c.pat.tt() >> my) & 1 == 1;
+        let pv = pattern_value_at(&c.pat, y);
+        assert!(pa == pv, "(a) AigPattern::tt bit != pattern evaluated on the assignment");
+        kani::assume(pa == pv);
+        let ca = (c.canonical >> my) & 1 == 1;
+        let nv = npn_value_at(c.tt, p, neg, c.t.out_neg, y);
+        assert!(ca == nv, "(b) NpnTransform::apply bit != out_neg ^ tt(z')");
+        kani::assume(ca == nv);
+        let want = value_at(c.tt, z);
+        assert!(nv == (c.t.out_neg ^ want), "(c) z' != z");
+        kani::assume(nv == (c.t.out_neg ^ want));
+        assert!(want == (c.t.out_neg ^ pv), "chain: tt(z) == out_neg ^ pat(y)");
+        want
+    }
+    /// Some(e) ==> value(e) == tt(values of new_edge[leaf_i]) for every assignment, for every number of leaves and gates, every (canonical, t, pattern)
+    /// allowed by unit npn's contracts; cuts with < 2 or > 4 leaves are never used; older nodes of the new AIG are untouched
+    #[vp_proof(17)]
+    pub fn try_library_rewrite_computes_cut_function() {
         oracle::reset();
-        let c = any_case(0, gates, nl);
+        let c = any_case(0);
         let mut new_aig = any_dest();
         let hi = (new_aig.nodes.len() - 1) as u8;
         let ne = any_new_edges(hi);
         let inp: [bool; MAXN] = kani::any();
         let old = AigModule::new();
         let before = frame(&new_aig);
-        let cuts = vec![Cut { leaves: c.cut.leaves.clone(), cone_size: c.cut.cone_size }];
+        let v0 = node_values(&new_aig, &inp);
+        let cuts = vec![cut_of(&c)];
         let r = try_library_rewrite(&mut new_aig, &old, 6, &cuts, &ne);
         assert!(frame_kept(&new_aig, &before), "try_library_rewrite changed an existing node of the new AIG");
         if let Some(e) = r {
-            if canary {
-                assert!(new_aig.nodes.len() != before.0 + gates as usize, "canary: a full-size replacement is reachable");
-                return;
-            }
-            assert!(nl >= 2 && nl <= 4, "a cut with < 2 or > 4 leaves was used");
+            assert!(c.nl >= 2 && c.nl <= 4, "a cut with < 2 or > 4 leaves was used");
+            assert!((c.pat.size() as u32) < c.cone_size, "a pattern that is not smaller than the cone was used");
+            let want = promised(&c, leaf_values(&c, &ne, &v0));
             let v = node_values(&new_aig, &inp);
-            assert!(edge_val(&v, e) == promised(&c, &ne, &v), "try_library_rewrite: the replacement edge does not compute the cut function on the mapped leaves");
+            assert!(edge_val(&v, e) == want, "try_library_rewrite: the replacement edge does not compute the cut function on the mapped leaves");
         }
     }
-    /// Some(e) ==> value(e) == tt(values of new_edge[leaf_i]) for every assignment, every (canonical, t, pattern) allowed by unit npn's contracts; 2, 3, 4 leaves
-    #[vp_proof(17)]
-    pub fn try_library_rewrite_computes_cut_function_0_1_gates() {
-        one_cut(0, 2, false);
-        one_cut(0, 3, false);
-        one_cut(0, 4, false);
-        one_cut(1, 2, false);
-        one_cut(1, 3, false);
-        one_cut(1, 4, false);
-    }
-    #[vp_proof(17)]
-    pub fn try_library_rewrite_computes_cut_function_2_gates() {
-        one_cut(2, 2, false);
-        one_cut(2, 3, false);
-        one_cut(2, 4, false);
-    }
-    #[vp_proof(17)]
-    pub fn try_library_rewrite_computes_cut_function_3_gates() {
-        one_cut(3, 2, false);
-        one_cut(3, 3, false);
-        one_cut(3, 4, false);
-    }
-    /// cuts with 0, 1 or 5 leaves are never used
-    #[vp_proof(17)]
-    pub fn try_library_rewrite_skips_trivial_and_wide_cuts() {
-        one_cut(1, 0, false);
-        one_cut(1, 1, false);
-        one_cut(1, 5, false);
-    }
+    /// canary: a three-gate replacement over four leaves is reachable (must FAIL)
     #[vp_proof(17)]
     pub fn canary_try_library_rewrite_replaces() {
-        one_cut(2, 3, true);
+        oracle::reset();
+        let c = any_case(0);
+        let mut new_aig = any_dest();
+        let hi = (new_aig.nodes.len() - 1) as u8;
+        let ne = any_new_edges(hi);
+        let old = AigModule::new();
+        let n0 = new_aig.nodes.len();
+        let cuts = vec![cut_of(&c)];
+        let r = try_library_rewrite(&mut new_aig, &old, 6, &cuts, &ne);
+        assert!(!(r.is_some() && c.nl == 4 && new_aig.nodes.len() == n0 + 3));
     }
     /// two cuts of the same root (their tables describe the same root value on the mapped leaves): whichever wins the size comparison, the edge is right
     #[vp_proof(17)]
     pub fn try_library_rewrite_best_of_two_cuts() {
         oracle::reset();
-        let c0 = any_case(0, 1, 2);
-        let c1 = any_case(1, 2, 3);
+        let c0 = any_case(0);
+        let c1 = any_case(1);
+        // both cuts reach compute_cut_tt (the oracle hands out slots in call order); the skip conditions are covered by the one-cut harness
+        kani::assume(c0.nl >= 2 && c0.nl <= 4 && c1.nl >= 2 && c1.nl <= 4);
         let mut new_aig = any_dest();
         let hi = (new_aig.nodes.len() - 1) as u8;
         let ne = any_new_edges(hi);
         let inp: [bool; MAXN] = kani::any();
         let old = AigModule::new();
         let v0 = node_values(&new_aig, &inp);
-        let want = promised(&c0, &ne, &v0);
-        kani::assume(want == promised(&c1, &ne, &v0));
-        let cuts = vec![Cut { leaves: c0.cut.leaves.clone(), cone_size: c0.cut.cone_size }, Cut { leaves: c1.cut.leaves.clone(), cone_size: c1.cut.cone_size }];
+        let want = promised(&c0, leaf_values(&c0, &ne, &v0));
+        kani::assume(want == promised(&c1, leaf_values(&c1, &ne, &v0)));
+        let cuts = vec![cut_of(&c0), cut_of(&c1)];
         if let Some(e) = try_library_rewrite(&mut new_aig, &old, 6, &cuts, &ne) {
             let v = node_values(&new_aig, &inp);
             assert!(edge_val(&v, e) == want, "try_library_rewrite (two cuts): the chosen edge does not compute the root function");
@@ -1136,7 +1207,7 @@ pub mod oracle {
     fn dec_edge(w: u64) -> PatEdge {
         PatEdge((w & 7) as u8, (w >> 3) & 1 == 1)
     }
-    pub fn set(slot: usize, tt: Option<Tt4>, canonical: Tt4, t: NpnTransform, pat: Option<AigPattern>) {
+    pub fn set(slot: usize, tt: Option<Tt4>, canonical: Tt4, t: NpnTransform, pat: Option<&AigPattern>) {
         let w0 = (tt.is_some() as u64) | ((tt.unwrap_or(0) as u64) << 8) | ((canonical as u64) << 24) | ((t.in_neg as u64) << 40) | ((t.out_neg as u64) << 48);
         let mut w1 = (t.perm[0] as u64) | ((t.perm[1] as u64) << 8) | ((t.perm[2] as u64) << 16) | ((t.perm[3] as u64) << 24);
         let mut w2 = 0u64;
@@ -1180,11 +1251,12 @@ pub mod oracle {
         let n = ((w1 >> 40) & 3) as usize;
         let mut ands = Vec::with_capacity(3);
         let mut k = 0;
-        while k < n {
+        while k < 3 {
             let g = w2 >> (8 * k);
             ands.push((dec_edge(g), dec_edge(g >> 4)));
             k += 1;
         }
+        ands.truncate(n);
         Some(Box::leak(Box::new(AigPattern { ands, output: dec_edge(w2 >> 24) })))
     }
 }
